@@ -119,6 +119,8 @@ func observeAV1Rt(o *Toks, mtu uint16, stream []byte) (payloads [][]byte, panick
 	var deps []dres
 	panicked = try(func() {
 		payloads = (&codecs.AV1Payloader{}).Payload(mtu, cloneBytes(stream))
+		// the sender appends its trailer (auth tag, padding) to every payload in place
+		scribbleSpare(payloads...)
 		asm := &pkgframe.AV1{} // the deprecated alias of frame.AV1
 		dep := &codecs.AV1Depacketizer{}
 		for _, p := range payloads {
